@@ -384,8 +384,6 @@ structure Expect where
 (locals, parameters and labels positional; see translate/mapranges/norm.go). Every other loop needs
 no row: its regenerated descriptor together with `runBody_perm` is the tie. -/
 def expected : List Expect := [
-  ⟨"cisco/parse.go", "parser.addDefaults", "defaultObjects", 0, "56f44e4d2fd3ec07", "effects", .ownKey, "site_addDefaults"⟩,
-  ⟨"program/config.go", "LoadConfig", "defaultVals", 0, "4c40b37755449ea3", "early-exit", .exitOrOwnKey, "site_loadDefaults"⟩
 ]
 
 /-- The loops repaired by `fix:` commits iterate over sorted keys: per (file, function) the least
